@@ -341,6 +341,35 @@ func checkC16(c *Ctx) error {
 			}
 		}
 	}
+	// --- the same cases on concrete inputs through the real CLI ------------------
+	var ncases []c16NativeCase
+	for _, ai := range infos {
+		doc := readme[ai.name]
+		for _, user := range []bool{false, true} {
+			sub := ai.project
+			if user {
+				sub = ai.user
+			}
+			if doc != nil {
+				if user {
+					sub = doc.user
+				} else {
+					sub = doc.project
+				}
+			}
+			for customKind := 0; customKind <= 2; customKind++ {
+				for _, bs := range []int{0, 1, 2, 4, 5, 6} {
+					ncases = append(ncases, c16NativeCase{agent: ai.name, skill: ai.skill, sub: sub, user: user, customKind: customKind, baseState: bs})
+				}
+			}
+		}
+	}
+	nrun, nerr := runC16Native(c, k.S.Repo, k.S.Dir, srcRoot, tree, ncases, violation)
+	if nerr != nil {
+		c.Inconclusive("native differential not run: " + nerr.Error())
+	}
+	c.Coverage["native_cli_cases"] = nrun
+	c.Coverage["traces_validated_against_impl"] = nrun
 	engineCoverage(c, k.E, "")
 	c.Coverage["explanation"] = fmt.Sprintf("Symbolic execution of the real Install/ResolvePath/ValidatePath and the agents' methods for all %d registered agents with --path, $HOME and the working directory as symbolic strings (solver strings), --user and the state of the base (absent/directory/file/unreadable) enumerated: %d paths, %d mutating filesystem events; every event path is proved (str.prefixof query, unsat required) to lie under <expected base>/<skill>, the expected base computed from the README table parsed at check time; installed tree compared with the on-disk skill tree; registry, kong sub-commands (struct tags + type arguments) and README agent list compared as sets.", len(infos), paths, mutEvents)
 	c.Coverage["obligations"] = oblig
@@ -350,6 +379,7 @@ func checkC16(c *Ctx) error {
 	c.Coverage["agents"] = regL
 	c.Coverage["string_queries"] = queries
 	c.Assume("filepath.Abs of the custom path is an arbitrary clean absolute path (one symbol per argument); Join has its exact semantics on clean operands; $HOME and cwd are clean absolute paths")
+	c.Assume("native differential: every (agent, --user, --path kind, base state except unreadable) case is also run through the CLI built from the working tree with one concrete HOME / cwd / --path (a directory name containing a space included) and judged by the same documented expectation")
 	c.Assume("tilde expansion and relative --path resolution against cwd are those of filepath.Abs (outside the stub: trusted)")
 	return nil
 }
